@@ -729,11 +729,14 @@ class Engine(object):
     table = self.tables[table_id]
     col = table.get_column(col_id)
     checkpoint = self._get_undo_checkpoint()
+    # Evaluating a formula on the side must not schedule (or cancel) any automatic removals.
+    auto_removes = self.docmodel.get_auto_removes()
     # Makes calls to REQUEST synchronous, since raising a RequestingError can't work here.
     self._sync_request = True
     try:
       return self._recompute_one_cell(table, col, row_id, record_attributes=record_attributes)
     finally:
+      self.docmodel.set_auto_removes(auto_removes)
       # It is possible for formula evaluation to have side-effects that produce DocActions (e.g.
       # lookupOrAddDerived() creates those). In case of get_formula_error(), these aren't fully
       # processed (e.g. don't get applied to DocStorage), so it's important to reverse them.
